@@ -40,6 +40,16 @@ def dim4_s(m):
     return {"name": m, "opts": [{m: "N"}, {m: "L"}, {m: "H"}, {m: "N", "M" + m: "S"}]}
 
 
+def ov_dim(ver, b, values=None, modified_only=()):
+    """every effective value of a base metric, written plainly and through its modified twin over every *different* base value:
+    b:v | b:w + Mb:v for all w # v (modified_only: values only the modified metric can take, e.g. Safety)"""
+    vals = list(values or V[ver][b])
+    opts = [{b: v} for v in vals]
+    for v in vals + list(modified_only):
+        opts += [{b: w, "M" + b: v} for w in vals if w != v]
+    return {"name": b + "~M" + b, "opts": opts}
+
+
 def tuple_dim(name, metrics, tuples):
     return {"name": name, "opts": [dict((m, v) for m, v in zip(metrics, t) if v != "-") for t in tuples]}
 
@@ -103,7 +113,17 @@ def v4_tables(tier, seed):
         # all 104 976 base-only vectors
         tabs.append(header("4", -1, {}, [dim("4", "AV"), dim("4", "PR"), dim("4", "UI"), dim("4", "AC"), dim("4", "AT")],
                            [dim("4", m) for m in ["VC", "VI", "VA", "SC", "SI", "SA"]]))
-    else:
+    # effective values carried by modified metrics over a different base value (both tiers): exploitability metrics ...
+    imp6 = tuple_dim("IMP", ["VC", "VI", "VA", "SC", "SI", "SA"], [("H", "H", "H", "N", "N", "N"), ("L", "N", "H", "H", "L", "N"), ("N", "L", "N", "L", "H", "H"),
+                                                                   ("H", "L", "L", "N", "N", "L"), ("N", "N", "L", "H", "H", "H"), ("L", "L", "L", "L", "L", "L")])
+    tabs.append(header("4", -1, {}, [imp6, dim("4", "E", values="AU")], [ov_dim("4", b) for b in ["AV", "PR", "UI", "AC", "AT"]]))
+    # ... and impact metrics (vulnerable system overridden; subsequent system plain, with Safety)
+    ex5 = tuple_dim("EX", ["AV", "PR", "UI", "AC", "AT"], [("N", "N", "N", "L", "N"), ("A", "L", "P", "H", "P"), ("P", "H", "A", "L", "N"), ("L", "N", "A", "L", "P")])
+    sub4 = {"name": "SUB", "opts": [{"SC": "N", "SI": "N", "SA": "N"}, {"SC": "H", "SI": "L", "SA": "N"}, {"SC": "L", "SI": "H", "SA": "H"}, {"SC": "N", "SI": "N", "SA": "L", "MSI": "S"}]}
+    tabs.append(header("4", -1, {}, [ex5, dim("4", "CR", values="HL"), dim("4", "E", values="AU")], [ov_dim("4", b) for b in ["VC", "VI", "VA"]] + [sub4]))
+    tabs.append(header("4", -1, {"VC": "L", "VI": "H", "VA": "N"}, [ex5, dim("4", "E", values="AP")],
+                       [ov_dim("4", "SC"), ov_dim("4", "SI", modified_only="S"), ov_dim("4", "SA", modified_only="S")]))
+    if tier != "quick":
         a = [dim("4", m) for m in ["AV", "PR", "UI", "AC", "AT", "VC", "VI", "VA"]]
         b = [dim("4", "SC"), dim4_s("SI"), dim4_s("SA"), dim("4", "CR"), dim("4", "IR"), dim("4", "AR"), dim("4", "E")]
         tabs.append(header("4", -1, {}, a, b, cov=True))      # complete quotient, layout 1
